@@ -1481,3 +1481,14 @@ def rematch_start(eng, args, kwargs, st, node):
 @method('ReMatch.end')
 def rematch_end(eng, args, kwargs, st, node):
     return [(st.heap[args[0].loc].fields['end_'], st)]
+
+
+# ----------------------------------------------------------------- pytest configuration object (C15)
+@method('PytestConfig.getvalue')
+def pytest_config_getvalue(eng, args, kwargs, st, node):
+    key = args[1]
+    if not isinstance(key, VStr):
+        raise Undecided('config.getvalue(%r)' % (key,), node)
+    eng.ctx.sort('Val')
+    eng.trusted_used.add('pytest: config.getvalue(name) is a function of the option name (uninterpreted pytest_option)')
+    return [(VVal(eng.model_app('pytest_option', [key.t], 'Val')), st)]
